@@ -531,6 +531,87 @@ theorem C02_sse_format_transparent (ev data : Text) (hev : NoNL ev) (hevne : ev 
 
 /-! ## the library's own POST-SSE reader -/
 
+/-! ### the legacy server's stream: events and keep-alive comments in any order -/
+
+/-- what the legacy SSE server writes on a connection: an event (`formatSSEEvent`) or the keep-alive comment of the
+    ticker (`fmt.Fprint(w, ": keepalive\n\n")`) -/
+inductive LegacyItem where
+  | event (ev data : Text)
+  | keepalive
+
+def LegacyItem.bytes : LegacyItem → Text
+  | .event ev data => formatSSEEvent ev data
+  | .keepalive => t!": keepalive\n\n"
+
+def LegacyItem.good : LegacyItem → Prop
+  | .event ev data => NoNL ev ∧ ev ≠ [] ∧ data ≠ [] ∧ 13 ∉ data
+  | .keepalive => True
+
+def LegacyItem.payload : LegacyItem → List (Text × Text)
+  | .event _ data => [([], data)]
+  | .keepalive => []
+
+private theorem run_formatEvent (ev data rest : Text) (hev : NoNL ev) (hevne : ev ≠ []) (hne : data ≠ []) (hcr : 13 ∉ data)
+    (st : PS) (hd : st.data = []) :
+    (cutLines (formatSSEEvent ev data ++ rest)).1.foldl stepLine st =
+      (cutLines rest).1.foldl stepLine { st with data := [], events := (st.lastId, data) :: st.events } := by
+  have hpieces := splitOn_pieces data hcr
+  have hpre : NoNL t!"data: " := by simp [NoNL]
+  have hevl : NoNL (t!"event: " ++ ev) := NoNL_append (by simp [NoNL]) hev
+  have hw : formatSSEEvent ev data ++ rest =
+      (t!"event: " ++ ev) ++ 10 :: (dataLines t!"data: " (splitOn 10 data) ++ (10 :: rest)) := by
+    simp only [formatSSEEvent, hevne, hne, if_false]
+    rw [← format_as_dataLines]
+    simp [List.append_assoc]
+  have hlines : (cutLines (formatSSEEvent ev data ++ rest)).1 =
+      (t!"event: " ++ ev) :: (((splitOn 10 data).map (t!"data: " ++ ·) ++ [[]]) ++ (cutLines rest).1) := by
+    rw [hw, cut_line _ _ hevl, cut_dataLines _ hpre _ hpieces]
+    simp [cutLines]
+  rw [hlines, List.foldl_cons, step_event, List.foldl_append,
+    fold_event_lines _ (splitOn_ne_nil _) _ hd, joinLF_splitOn]
+
+private theorem run_keepalive (rest : Text) (st : PS) (hd : st.data = []) :
+    (cutLines (t!": keepalive\n\n" ++ rest)).1.foldl stepLine st = (cutLines rest).1.foldl stepLine st := by
+  have h1 : t!": keepalive\n\n" ++ rest = t!": keepalive" ++ 10 :: ([] ++ 10 :: rest) := by simp
+  rw [h1, cut_line _ _ (by simp [NoNL]), cut_line _ _ (by simp [NoNL])]
+  simp [stepLine, hd]
+
+private theorem run_legacy (items : List LegacyItem) (h : ∀ i ∈ items, i.good) :
+    ∀ st : PS, st.data = [] → st.lastId = [] →
+      ((cutLines ((items.map LegacyItem.bytes).flatten)).1.foldl stepLine st).events =
+        ((items.map LegacyItem.payload).flatten).reverse ++ st.events := by
+  induction items with
+  | nil => intro st _ _; simp [cutLines]
+  | cons i items ih =>
+    intro st hd hl
+    have hi := h i (by simp)
+    have ih := ih (fun x hx => h x (by simp [hx]))
+    simp only [List.map_cons, List.flatten_cons]
+    cases i with
+    | event ev data =>
+      obtain ⟨g1, g2, g3, g4⟩ := hi
+      simp only [LegacyItem.bytes, LegacyItem.payload]
+      rw [run_formatEvent ev data _ g1 g2 g3 g4 st hd,
+        ih { st with data := [], events := (st.lastId, data) :: st.events } rfl hl]
+      simp [hl]
+    | keepalive =>
+      simp only [LegacyItem.bytes, LegacyItem.payload]
+      rw [run_keepalive _ st hd, ih st hd hl]
+      simp
+
+/-- **The legacy stream is read back event by event, keep-alives and all**: whatever sequence of events and keep-alive
+    comments the legacy SSE server writes on one connection, a WHATWG reader dispatches exactly the events' data, in order;
+    a keep-alive comment between, before or after events yields nothing and disturbs no neighbour. -/
+theorem C02_legacy_stream_transparent (items : List LegacyItem) (h : ∀ i ∈ items, i.good) :
+    parseSSE ((items.map LegacyItem.bytes).flatten) = (items.map LegacyItem.payload).flatten := by
+  simp only [parseSSE]
+  rw [run_legacy items h _ rfl rfl]
+  simp
+
+-- non-vacuity: keep-alive, event, keep-alive, keep-alive, event with a line break in its data
+example : parseSSE (([LegacyItem.keepalive, .event t!"message" t!"{}", .keepalive, .keepalive,
+      .event t!"message" t!"a\nb"].map LegacyItem.bytes).flatten) = [([], t!"{}"), ([], t!"a\nb")] := by decide
+
 private theorem trimLeft_nonspace (c : Nat) (s : Text) (h : isSpace c = false) : trimLeft (c :: s) = c :: s := by
   simp [trimLeft, h]
 
